@@ -110,14 +110,47 @@ class DimSystem:
             c[self.units.index(u)] = self.F(Fraction(e) if not isinstance(e, Fraction) else e)
         return Lin(c)
 
+    def parse_F(self, text):
+        """Exponent given in a spec file: a number, a fraction 'a/b' or a rational
+        expression in the parameter symbols, e.g. '2/(geometry+2-omega)'."""
+        import ast as _ast
+        if isinstance(text, (int, Fraction)):
+            return self.F(text)
+        if isinstance(text, float):
+            return self.F(Fraction(repr(text)))
+        tree = _ast.parse(str(text), mode='eval').body
+
+        def ev(n):
+            if isinstance(n, _ast.Constant):
+                if isinstance(n.value, int):
+                    return self.F(n.value)
+                return self.F(Fraction(repr(n.value)))
+            if isinstance(n, _ast.Name):
+                return self.syms[n.id]
+            if isinstance(n, _ast.UnaryOp) and isinstance(n.op, _ast.USub):
+                return -ev(n.operand)
+            if isinstance(n, _ast.BinOp):
+                a, b = ev(n.left), ev(n.right)
+                if isinstance(n.op, _ast.Add):
+                    return a + b
+                if isinstance(n.op, _ast.Sub):
+                    return a - b
+                if isinstance(n.op, _ast.Mult):
+                    return a * b
+                if isinstance(n.op, _ast.Div):
+                    return a / b
+            raise ValueError('unsupported exponent expression %r' % text)
+        return ev(tree)
+
     def from_spec(self, spec):
-        """spec: dict unit -> number|str fraction, or the string '1'."""
+        """spec: dict unit -> exponent (number, fraction or rational expression
+        in the parameters), or '1' for dimensionless."""
         if spec in ('1', 1, None):
             return self.dimless()
         c = [self.zero] * self.nu
         for u, e in spec.items():
             if u in self.units:
-                c[self.units.index(u)] = self.F(Fraction(str(e)))
+                c[self.units.index(u)] = self.parse_F(e)
         return Lin(c)
 
     def fresh(self, name=None):
